@@ -83,4 +83,16 @@ def postPass : FlatST → FlatST
 def merge2 (op : Op) (a b : FlatST) : FlatST :=
   postPass ((mergeEvents op (evs a) (evs b) none none).foldl emit {}).out
 
+/-- `TimeSpaceRangesIter` (`time_space_iter`): consecutive flat entries with the same coverage form one element. -/
+def regroupFrom (cur : List Rng × Space) : FlatST → STMoc
+  | [] => [cur]
+  | (t, s) :: rest =>
+    if s == cur.2 then regroupFrom (cur.1 ++ [t], cur.2) rest
+    else cur :: regroupFrom ([t], s) rest
+
+def regroup : FlatST → STMoc
+  | [] => []
+  | (t, s) :: rest => regroupFrom ([t], s) rest
+
+
 end Moc.Merge2D
